@@ -115,6 +115,49 @@ def generate(ck):
     mseg = re.search(r"if \(m\.segment_id\(\) > (\d+)\)\s*\{\s*return make_error\(Error::kInvalidSegment\)", api)
     vseg = int(mseg.group(1)) if mseg else cx["mem_segment_max"]
     names, enc2tab, unsupported = a64_encoding_tables(vlib.REPO)
+    # data that lives in function-local tables / constants of the sources (not reachable from the dumper): read textually
+    text_stale = []
+    oph = open(os.path.join(vlib.REPO, "asmjit/x86/x86opcode_p.h")).read()
+    mar = re.search(r"add_arith_by_size\(T size\) noexcept \{\s*static const uint32_t mask\[16\] = \{(.*?)\};", oph, re.S)
+    arith = None
+    if mar:
+        vals = []
+        for ent in re.sub(r"//[^\n]*", "", mar.group(1)).split(","):
+            ent = ent.strip()
+            if not ent:
+                continue
+            v = 0
+            for tok in ent.split("|"):
+                tok = tok.strip()
+                v |= {"kPP_66": cx["opcode_pp_66"], "kW": cx["opcode_w"]}.get(tok, None) if not tok.isdigit() else int(tok)
+            vals.append(v)
+        arith = vals + [0] * (16 - len(vals))
+    if not arith or len(arith) != 16:
+        text_stale.append("asmjit/x86/x86opcode_p.h: Opcode::add_arith_by_size mask[16] not recognised")
+        arith = [0, 0, 1 | cx["opcode_pp_66"], 0, 1, 0, 0, 0, 1 | cx["opcode_w"]] + [0] * 7
+    tx["arith_by_size_mask"] = arith
+    xasm = open(os.path.join(vlib.REPO, "asmjit/x86/x86assembler.cpp")).read()
+    pm = xasm.find("EmitVexEvexM:")
+    mev = re.search(r"constexpr uint32_t kEvexBits = 0x([0-9A-Fa-f]+)u;", xasm[pm:]) if pm >= 0 else None
+    if mev:
+        cx["evex_bits_m"] = int(mev.group(1), 16)
+    else:
+        text_stale.append("asmjit/x86/x86assembler.cpp: kEvexBits of EmitVexEvexM not recognised")
+        cx["evex_bits_m"] = 0x80DF8110
+
+    pr = xasm.find("EmitVexEvexR:")
+    mer = re.search(r"constexpr uint32_t kEvexBits = 0x([0-9A-Fa-f]+)u;", xasm[pr:pm]) if 0 <= pr < pm else None
+    if mer:
+        cx["evex_bits_r"] = int(mer.group(1), 16)
+    else:
+        text_stale.append("asmjit/x86/x86assembler.cpp: kEvexBits of EmitVexEvexR not recognised")
+        cx["evex_bits_r"] = 0x00D78150
+    mv3 = re.search(r"if \(x & 0x([0-9A-Fa-f]+)u\) \{\s*uint32_t xor_mask = vex_prefix_table\[x & 0xF\]", xasm[pr:pm]) if 0 <= pr < pm else None
+    if mv3:
+        cx["vex3_bits_r"] = int(mv3.group(1), 16)
+    else:
+        text_stale.append("asmjit/x86/x86assembler.cpp: VEX3 selection mask of EmitVexEvexR not recognised")
+        cx["vex3_bits_r"] = 0x8000803E
 
     L = []
     A = L.append
@@ -311,6 +354,18 @@ def generate(ck):
         ("asmjit/arm/a64assembler.cpp", "uint32_t imm12 = uint32_t(offset32) >> imm_shift;"),
         ("asmjit/arm/a64assembler.cpp", "inst_id = op_data.u_alt_inst_id;"),
         ("asmjit/arm/a64assembler.cpp", "if (rm_rel->as<Mem>().index_id() > 30 && rm_rel->as<Mem>().index_id() != Gp::kIdZr) {"),
+        # round 5
+        ("asmjit/arm/a64assembler.cpp", "uint32_t offset_shift = op_data.offset_shift + x;"),
+        ("asmjit/arm/a64assembler.cpp", "if (!Support::is_int_n<7>(offset32))"),
+        ("asmjit/arm/a64assembler.cpp", "if (s && shift != xsz)"),
+        ("asmjit/arm/a64assembler.cpp", "if (xsz > 4u || o0.as<Vec>().has_element_index() || o0.as<Vec>().has_element_type())"),
+        ("asmjit/x86/x86assembler.cpp", "return uint64_t(addr_value) > 0xFFFFFFFFu;"),
+        ("asmjit/x86/x86assembler.cpp", "uint32_t immediate_size = 8;"),
+        ("asmjit/x86/x86assembler.cpp", "if (op_reg == Gp::kIdAx && !o0.as<Gp>().is_gp8_hi() && !rm_rel->as<Mem>().has_base_or_index()) {"),
+        ("asmjit/x86/x86assembler.cpp", "return reg_id + (vvvvv_id << kVexVVVVVShift);"),
+        ("asmjit/x86/x86assembler.cpp", "((rb_reg << 2) & 0x0060u) |"),
+        ("asmjit/x86/x86assembler.cpp", "rex &= rm_info;"),
+        ("asmjit/x86/x86instapi.cpp", "if (ASMJIT_UNLIKELY(reg_id >= 16 && reg_type >= RegType::kVec128 && reg_type <= RegType::kVec512 && !common_info.has_flag(InstDB::InstFlags::kEvex))) {"),
     ]
     stale = []
     cache = {}
@@ -326,6 +381,7 @@ def generate(ck):
     mh = re.search(r"kEncodingVexOp,(.*?)kEncodingCount", hsrc, re.S)
     if not mh or [e for e in re.findall(r"kEncoding(\w+)", mh.group(1)) if not e.startswith(("Vex", "Fma4", "Amx"))]:
         stale.append("asmjit/x86/x86instdb_p.h: encodings after kEncodingVexOp are no longer all Vex*/Fma4*/Amx*")
+    stale.extend(text_stale)
     for f, pat in expect:
         if f not in cache:
             cache[f] = open(os.path.join(vlib.REPO, f)).read()
